@@ -198,6 +198,9 @@ class ExprMixin:
     def truth(self, v, st):
         if v is None:
             return False
+        from .values import SymDict
+        if isinstance(v, Ref) and isinstance(st.deref(v), SymDict):
+            return st.deref(v).nonempty
         if self.abstract() and self._opaque(v, st):
             from .values import AbsSeq
             if isinstance(v, AbsSeq):
@@ -268,6 +271,14 @@ class ExprMixin:
                 return a is not b
         if o in ("Is", "IsNot") and callable(a) and callable(b) and not isinstance(a, (Sym, Ref)) and not isinstance(b, (Sym, Ref)):
             return (a is b) if o == "Is" else (a is not b)
+        if o in ("Is", "IsNot") and ((isinstance(a, Sym) and a.tag == "optint" and b is None) or (isinstance(b, Sym) and b.tag == "optint" and a is None)):
+            t = (a if isinstance(a, Sym) else b).t
+            r = T.OptInt.is_none(t)
+            return r if o == "Is" else z3.Not(r)
+        for x in (a, b):
+            if isinstance(x, Sym) and x.tag == "optint" and o not in ("Is", "IsNot"):
+                if not self.decide(T.OptInt.is_some(x.t), st):
+                    raise PyRaise("TypeError")
         if o in ("Is", "IsNot"):
             if a is None or b is None or isinstance(a, bool) or isinstance(b, bool):
                 if isinstance(a, Sym) or isinstance(b, Sym):
@@ -326,6 +337,10 @@ class ExprMixin:
             return r if o == "Eq" else z3.Not(r)
         if isinstance(a, Sym) and a.tag == "fmtstr" and o in ("Eq", "NotEq"):
             return self.dunder_eq(o, a, b, st)
+        if o in ("Eq", "NotEq") and isinstance(a, Sym) and a.tag in ("line", "optline") and isinstance(b, Sym) and b.tag in ("line", "optline"):
+            # FmtStr.__eq__ (C19): equal iff same terminal string = same line identity; None (-1) never equals a line
+            r = a.t == b.t
+            return r if o == "Eq" else z3.Not(r)
         if o in ("Eq", "NotEq") and (isinstance(a, (OpaqueV, ClassV)) or isinstance(b, (OpaqueV, ClassV))):
             r = a is b
             return r if o == "Eq" else not r
@@ -356,6 +371,9 @@ class ExprMixin:
                     return False
                 return z3.Or(*[item.t == str_term(k) for k in ks]) if len(ks) > 1 else item.t == str_term(ks[0])
             return False
+        from .values import SymDict
+        if isinstance(container, Ref) and isinstance(st.deref(container), SymDict) and is_int(item):
+            return z3.Select(st.deref(container).present, int_term(item))
         if self.abstract() and self._opaque(container, st):
             return st.nd_bool(f"in@{st.deref(container).kind if isinstance(container, Ref) else 'seq'}")
         if isinstance(container, Ref):
@@ -363,6 +381,8 @@ class ExprMixin:
             if isinstance(o, DictV):
                 if isinstance(item, (str, int, bytes)):
                     return item in o.items
+                if not o.items:
+                    return False
                 raise Unsupported("symbolic key in heap dict")
             if isinstance(o, ListV) and o.items is not None and not isinstance(item, (Sym, Ref)):
                 if all(not isinstance(x, (Sym, Ref)) for x in o.items):
@@ -378,6 +398,10 @@ class ExprMixin:
         return self.binop(type(n.op).__name__, a, b, st)
 
     def binop(self, op, a, b, st):
+        for x in (a, b):
+            if isinstance(x, Sym) and x.tag == "optint":
+                if not self.decide(T.OptInt.is_some(x.t), st):
+                    raise PyRaise("TypeError")      # arithmetic on None
         num = (int, float)
         if isinstance(a, num) and isinstance(b, num) and not isinstance(a, bool) and not isinstance(b, bool):
             try:
@@ -613,7 +637,15 @@ class ExprMixin:
         if isinstance(v, AbsSeq):
             a = T.py_bound(None if lo is None else int_term(lo), v.n, z3.IntVal(0))
             b = T.py_bound(None if hi is None else int_term(hi), v.n, v.n)
+            if lo is None:
+                return AbsSeq(z3.If(b > 0, b, 0), v.elem)           # a prefix keeps its elements
+            if v.elem is not None:
+                return AbsSeq(z3.If(b > a, b - a, 0), lambda k, a=a, e=v.elem: e(a + k))
             return AbsSeq(z3.If(b > a, b - a, 0))
+        if isinstance(v, Sym) and v.tag == "line" and lo is None and hi is not None:
+            w = int_term(hi)
+            st.fact(T.line_facts(v.t, w))
+            return Sym("line", T.CLIPID(v.t, w))
         if isinstance(v, (str, bytes, tuple)) and all(x is None or isinstance(x, int) for x in (lo, hi)):
             return v[lo:hi]
         if isinstance(v, (str, bytes)) or (isinstance(v, Sym) and v.tag in ("str", "bytes")):
@@ -703,11 +735,28 @@ class ExprMixin:
                 if isinstance(k, (str, int, bytes)):
                     o.items[k] = v
                     return
-                if self.abstract():
+                if getattr(self.contract, "symdict", False) and isinstance(k, Sym) and k.tag == "int" and not o.items:
+                    from .values import SymDict
+                    st.heap[obj.oid] = SymDict(z3.K(T.I, z3.BoolVal(False)), z3.K(T.I, z3.IntVal(-1)), z3.BoolVal(False))
+                    return self.set_item(obj, slice_node, v, st)
+                elif self.abstract():
                     from .values import AbsV
                     st.heap[obj.oid] = AbsV(fresh("absdict", T.I), kind="dict")      # contents are no longer tracked
                     return
                 raise Unsupported("symbolic key store")
+            from .values import SymDict
+            if isinstance(o, SymDict):
+                k = int_term(self.ev(slice_node, st))
+                if v is None:
+                    vt = z3.IntVal(-1)
+                elif isinstance(v, Sym) and v.tag in ("line", "optline"):
+                    vt = v.t
+                else:
+                    raise Unsupported("symbolic dict value of an unmodelled type")
+                o.present = z3.Store(o.present, k, z3.BoolVal(True))
+                o.val = z3.Store(o.val, k, vt)
+                o.nonempty = z3.BoolVal(True)
+                return
             if isinstance(o, ListV) and o.items is not None and not isinstance(slice_node, ast.Slice):
                 k = self.ev(slice_node, st)
                 if isinstance(k, int):
